@@ -237,6 +237,28 @@ enum Op {
     Update(Vec<Pos>, Option<Vec<Pos>>, Vec<Pos>),
     /// bound leading keys, value pattern (`None` = no `=>{..}` part)
     Q(Kind, Vec<Pos>, Option<Vec<Pos>>),
+    /// create in the second fact `G` (same schema as `F`)
+    CreateG(Vec<Pos>, Vec<Pos>),
+    /// several `map`s in one action: nested (2 parts: the inner one runs in the body of the outer
+    /// one, directly or through a called action) or one after the other
+    MapX(Shape, Vec<Part>),
+}
+
+#[derive(Clone, Copy, Debug, PartialEq, Eq)]
+enum Shape {
+    Nest,
+    NestCall,
+    Seq,
+}
+
+/// one `map` of a `MapX`: over fact `F` or `G`; `at`: the first key is bound to the first key of
+/// the fact the OUTER map is visiting (`keys` then holds the bound keys after it)
+#[derive(Clone, Debug)]
+struct Part {
+    fact: char,
+    at: bool,
+    keys: Vec<Pos>,
+    pat: Option<Vec<Pos>>,
 }
 
 fn toks(ps: &[Pos]) -> String {
@@ -256,6 +278,19 @@ impl Op {
             Op::Create(k, v) => j(vec!["create".into(), toks(k), "/".into(), toks(v)]),
             Op::Delete(k) => j(vec!["delete".into(), toks(k)]),
             Op::Update(k, f, t) => j(vec!["update".into(), toks(k), "/".into(), opt_toks(f), "/".into(), toks(t)]),
+            Op::CreateG(k, v) => j(vec!["createg".into(), toks(k), "/".into(), toks(v)]),
+            Op::MapX(shape, parts) => {
+                let sh = match shape {
+                    Shape::Nest => "nest",
+                    Shape::NestCall => "nestcall",
+                    Shape::Seq => "seq",
+                };
+                let ps: Vec<String> = parts
+                    .iter()
+                    .map(|p| j(vec![p.fact.to_string(), if p.at { "@".into() } else { String::new() }, toks(&p.keys), "/".into(), opt_toks(&p.pat)]))
+                    .collect();
+                format!("mapx {sh} {}", ps.join(" // "))
+            }
             Op::Q(kind, k, p) => {
                 let head = match kind {
                     Kind::Query => "query".to_string(),
@@ -282,6 +317,11 @@ impl Op {
             Op::Delete(k) => format!("delete[{}]", sh(k)),
             Op::Update(k, f, t) => format!("update[{}]{{{}}}{{{}}}", sh(k), osh(f), sh(t)),
             Op::Q(kind, k, p) => format!("{kind:?}[{}]{{{}}}", sh(k), osh(p)),
+            Op::CreateG(k, v) => format!("createg[{}]{{{}}}", sh(k), sh(v)),
+            Op::MapX(shape, parts) => format!(
+                "{shape:?}:{}",
+                parts.iter().map(|p| format!("{}{}[{}]{{{}}}", p.fact, if p.at { "@" } else { "" }, sh(&p.keys), osh(&p.pat))).collect::<Vec<_>>().join("//")
+            ),
         }
     }
     fn params(&self) -> Vec<V> {
@@ -312,6 +352,18 @@ impl Op {
                     add(p, &mut out);
                 }
             }
+            Op::CreateG(k, v) => {
+                add(k, &mut out);
+                add(v, &mut out);
+            }
+            Op::MapX(_, parts) => {
+                for p in parts {
+                    add(&p.keys, &mut out);
+                    if let Some(pt) = &p.pat {
+                        add(pt, &mut out);
+                    }
+                }
+            }
         }
         out
     }
@@ -330,9 +382,37 @@ fn parse_opt_positions(ts: &[&str]) -> Option<Option<Vec<Pos>>> {
 
 fn parse_op(line: &str) -> Option<Op> {
     let t: Vec<&str> = line.split(' ').filter(|s| !s.is_empty()).collect();
+    if t[0] == "mapx" && t.len() >= 2 {
+        let shape = match t[1] {
+            "nest" => Shape::Nest,
+            "nestcall" => Shape::NestCall,
+            "seq" => Shape::Seq,
+            _ => return None,
+        };
+        let mut parts = vec![];
+        for pt in t[2..].split(|x| *x == "//") {
+            let fact = match pt.first()? {
+                &"F" => 'F',
+                &"G" => 'G',
+                _ => return None,
+            };
+            let (at, rest) = if pt.get(1) == Some(&"@") { (true, &pt[2..]) } else { (false, &pt[1..]) };
+            let g: Vec<&[&str]> = rest.split(|x| *x == "/").collect();
+            if g.len() != 2 {
+                return None;
+            }
+            parts.push(Part { fact, at, keys: parse_positions(g[0])?, pat: parse_opt_positions(g[1])? });
+        }
+        let ok = match shape {
+            Shape::Seq => !parts.is_empty() && parts.iter().all(|p| !p.at),
+            _ => parts.len() == 2 && !parts[0].at,
+        };
+        return if ok { Some(Op::MapX(shape, parts)) } else { None };
+    }
     let groups: Vec<&[&str]> = t[1..].split(|x| *x == "/").collect();
     match t[0] {
         "create" if groups.len() == 2 => Some(Op::Create(parse_positions(groups[0])?, parse_positions(groups[1])?)),
+        "createg" if groups.len() == 2 => Some(Op::CreateG(parse_positions(groups[0])?, parse_positions(groups[1])?)),
         "delete" if groups.len() == 1 => Some(Op::Delete(parse_positions(groups[0])?)),
         "update" if groups.len() == 3 => Some(Op::Update(
             parse_positions(groups[0])?,
@@ -442,11 +522,12 @@ impl Gen<'_> {
             }
         }
     }
+    /// every fact field as a declaration, each followed by ", " (a `tg` field always follows)
     fn all_fields_decl(&self) -> String {
-        self.schema.keys.iter().chain(&self.schema.vals).map(|(n, t)| format!("{n} {}", t.src())).collect::<Vec<_>>().join(", ")
+        self.schema.keys.iter().chain(&self.schema.vals).map(|(n, t)| format!("{n} {}, ", t.src())).collect::<String>()
     }
     fn all_fields_from(&self, src: &str) -> String {
-        self.schema.keys.iter().chain(&self.schema.vals).map(|(n, _)| format!("{n}: {src}.{n}")).collect::<Vec<_>>().join(", ")
+        self.schema.keys.iter().chain(&self.schema.vals).map(|(n, _)| format!("{n}: {src}.{n}, ")).collect::<String>()
     }
 
     fn preamble(&self) -> String {
@@ -455,8 +536,8 @@ impl Gen<'_> {
         s.push_str(&format!("enum {ENUM_NAME} {{ {} }}\n\n", ENUM_VARIANTS.join(", ")));
         let kd = self.schema.keys.iter().map(|(n, t)| format!("{n} {}", t.src())).collect::<Vec<_>>().join(", ");
         let vd = self.schema.vals.iter().map(|(n, t)| format!("{n} {}", t.src())).collect::<Vec<_>>().join(", ");
-        s.push_str(&format!("fact F[{kd}]=>{{{vd}}}\n\n"));
-        s.push_str(&format!("effect Hit {{ {} }}\neffect Miss {{ }}\neffect B {{ b bool }}\neffect N {{ n int }}\neffect Done {{ }}\n\n", self.all_fields_decl()));
+        s.push_str(&format!("fact F[{kd}]=>{{{vd}}}\nfact G[{kd}]=>{{{vd}}}\n\n"));
+        s.push_str(&format!("effect Hit {{ {}tg int }}\neffect Miss {{ }}\neffect B {{ b bool }}\neffect N {{ n int }}\neffect Done {{ }}\n\n", self.all_fields_decl()));
         s.push_str(&format!(
             "command Init {{\n    attributes {{ init: true }}\n    fields {{ nonce int }}\n{CMD_BOILER}    policy {{ finish {{}} }}\n}}\naction init(nonce int) {{ publish Init {{ nonce: nonce }} }}\n\n"
         ));
@@ -467,11 +548,77 @@ impl Gen<'_> {
         ));
         // the command published by `map` bodies
         s.push_str(&format!(
-            "command Vis {{\n    attributes {{ priority: 0 }}\n    fields {{ {} }}\n{CMD_BOILER}    policy {{ finish {{ emit Hit {{ {} }} }} }}\n}}\n\n",
+            "command Vis {{\n    attributes {{ priority: 0 }}\n    fields {{ {}tg int }}\n{CMD_BOILER}    policy {{ finish {{ emit Hit {{ {}tg: this.tg }} }} }}\n}}\n\n",
             self.all_fields_decl(),
             self.all_fields_from("this")
         ));
         s
+    }
+
+    /// fact literal of one `MapX` part; `at`: expression for the outer fact's first key
+    fn part_literal(&self, p: &Part, next: &mut usize, at: &str) -> String {
+        let mut keys: Vec<String> = vec![];
+        let mut given = p.keys.iter();
+        for (i, (name, _)) in self.schema.keys.iter().enumerate() {
+            if i == 0 && p.at {
+                keys.push(format!("{name}: {at}"));
+            } else {
+                match given.next() {
+                    Some(pos) => keys.push(format!("{name}: {}", self.pos(pos, "", next))),
+                    None => keys.push(format!("{name}: ?")),
+                }
+            }
+        }
+        let mut s = format!("{}[{}]", p.fact, keys.join(", "));
+        if let Some(v) = &p.pat {
+            s.push_str(&format!("=>{{{}}}", self.vals(v, "", next)));
+        }
+        s
+    }
+
+    fn mapx_unit(&self, j: usize, fields: &str, shape: Shape, parts: &[Part]) -> String {
+        let mut n = 0usize;
+        let k0 = self.schema.keys.first().map(|(n, _)| n.clone()).unwrap_or_default();
+        match shape {
+            Shape::Seq => {
+                let mut body = String::new();
+                for (i, p) in parts.iter().enumerate() {
+                    let lit = self.part_literal(p, &mut n, "");
+                    body.push_str(&format!("    map {lit} as f{i} {{\n        publish Vis {{ {}tg: {i} }}\n    }}\n", self.all_fields_from(&format!("f{i}"))));
+                }
+                format!("action a{j}({fields}) {{\n{body}    publish End {{ }}\n}}\n\n")
+            }
+            Shape::Nest => {
+                let outer = self.part_literal(&parts[0], &mut n, "");
+                let inner = self.part_literal(&parts[1], &mut n, &format!("f.{k0}"));
+                format!(
+                    "action a{j}({fields}) {{\n    map {outer} as f {{\n        publish Vis {{ {}tg: 0 }}\n        map {inner} as g {{\n            publish Vis {{ {}tg: 1 }}\n        }}\n    }}\n    publish End {{ }}\n}}\n\n",
+                    self.all_fields_from("f"),
+                    self.all_fields_from("g")
+                )
+            }
+            Shape::NestCall => {
+                let outer = self.part_literal(&parts[0], &mut n, "");
+                let start = n;
+                let inner = self.part_literal(&parts[1], &mut n, "at0");
+                // the inner action takes the parameters the inner literal uses (same names) and,
+                // for `@`, the outer fact's first key
+                let all: Vec<&str> = fields.split(", ").filter(|x| !x.is_empty()).collect();
+                let mut decl: Vec<String> = all[start..n].iter().map(|x| x.to_string()).collect();
+                let mut pass: Vec<String> = (start..n).map(|i| format!("p{i}")).collect();
+                if parts[1].at {
+                    decl.push(format!("at0 {}", self.schema.keys[0].1.src()));
+                    pass.push(format!("f.{k0}"));
+                }
+                format!(
+                    "action b{j}({}) {{\n    map {inner} as g {{\n        publish Vis {{ {}tg: 1 }}\n    }}\n}}\naction a{j}({fields}) {{\n    map {outer} as f {{\n        publish Vis {{ {}tg: 0 }}\n        action b{j}({})\n    }}\n    publish End {{ }}\n}}\n\n",
+                    decl.join(", "),
+                    self.all_fields_from("g"),
+                    self.all_fields_from("f"),
+                    pass.join(", ")
+                )
+            }
+        }
     }
 
     /// the command + action for one op shape; `j` numbers them
@@ -483,15 +630,23 @@ impl Gen<'_> {
         if let Op::Q(Kind::Map, k, p) = op {
             let lit = self.fact_literal(k, p, "", &mut n, true);
             return format!(
-                "action a{j}({fields}) {{\n    map {lit} as f {{\n        publish Vis {{ {} }}\n    }}\n    publish End {{ }}\n}}\n\n",
+                "action a{j}({fields}) {{\n    map {lit} as f {{\n        publish Vis {{ {}tg: 0 }}\n    }}\n    publish End {{ }}\n}}\n\n",
                 self.all_fields_from("f")
             );
+        }
+        if let Op::MapX(shape, parts) = op {
+            return self.mapx_unit(j, &fields, *shape, parts);
         }
         let body = match op {
             Op::Create(k, v) => {
                 let lit = self.fact_literal(k, &Some(v.clone()), "this.", &mut n, false);
                 format!("        finish {{\n            create {lit}\n            emit Done {{ }}\n        }}\n")
             }
+            Op::CreateG(k, v) => {
+                let lit = self.fact_literal(k, &Some(v.clone()), "this.", &mut n, false).replacen("F[", "G[", 1);
+                format!("        finish {{\n            create {lit}\n            emit Done {{ }}\n        }}\n")
+            }
+            Op::MapX(..) => unreachable!(),
             Op::Delete(k) => {
                 let lit = self.fact_literal(k, &None, "this.", &mut n, false);
                 format!("        finish {{\n            delete {lit}\n            emit Done {{ }}\n        }}\n")
@@ -505,7 +660,7 @@ impl Gen<'_> {
                 let lit = self.fact_literal(k, p, "this.", &mut n, true);
                 match kind {
                     Kind::Query => format!(
-                        "        let r = query {lit}\n        if r is Some {{\n            let f = r or test_fail()\n            finish {{ emit Hit {{ {} }} }}\n        }} else {{\n            finish {{ emit Miss {{ }} }}\n        }}\n",
+                        "        let r = query {lit}\n        if r is Some {{\n            let f = r or test_fail()\n            finish {{ emit Hit {{ {}tg: 0 }} }}\n        }} else {{\n            finish {{ emit Miss {{ }} }}\n        }}\n",
                         self.all_fields_from("f")
                     ),
                     Kind::Exists => format!("        let r = exists {lit}\n        finish {{ emit B {{ b: r }} }}\n"),
@@ -610,6 +765,7 @@ fn run_case(rec: &mut Recorder, lines: &[String]) {
         rec.sample(src.clone());
     }
     let mut st: Store = BTreeMap::new();
+    let mut stg: Store = BTreeMap::new();
     for (line, op) in &ops {
         let Some(op) = op else {
             rec.line(line.clone(), "bad-op");
@@ -633,7 +789,16 @@ fn run_case(rec: &mut Recorder, lines: &[String]) {
         let effects = sink.effects();
         let real: String = match (&res, op) {
             (Err(_), _) => "err".into(),
-            (Ok(()), Op::Create(..) | Op::Delete(..) | Op::Update(..)) => "ok".into(),
+            (Ok(()), Op::Create(..) | Op::CreateG(..) | Op::Delete(..) | Op::Update(..)) => "ok".into(),
+            (Ok(()), Op::MapX(..)) => {
+                let tag = |e: &aranya_runtime::VmEffect| {
+                    e.fields.iter().find(|kv| kv.key().as_str() == "tg").map(|kv| pk::show_value(kv.value())).unwrap_or("?".into())
+                };
+                format!(
+                    "[{}]",
+                    effects.iter().filter(|e| e.name.as_str() == "Hit").map(|e| format!("{}:{}", tag(e).trim_start_matches('i'), show_hit(&schema, e))).collect::<Vec<_>>().join(";")
+                )
+            }
             (Ok(()), Op::Q(Kind::Query, ..)) => match effects.first() {
                 Some(e) if e.name.as_str() == "Hit" => show_hit(&schema, e),
                 Some(e) if e.name.as_str() == "Miss" => "none".into(),
@@ -651,6 +816,49 @@ fn run_case(rec: &mut Recorder, lines: &[String]) {
 
         // ---- S-level oracle
         let want: Option<String> = match op {
+            Op::CreateG(k, v) => {
+                let key = all_vals(k);
+                let vals: Vec<(String, V)> = schema.vals.iter().map(|(n, _)| n.clone()).zip(all_vals(v)).collect();
+                if stg.contains_key(&key) {
+                    rec.count(&format!("unspecified:create-existing:{real}"));
+                    if real == "ok" {
+                        stg.insert(key, vals);
+                    }
+                    None
+                } else {
+                    stg.insert(key, vals);
+                    Some("ok".into())
+                }
+            }
+            Op::MapX(shape, parts) => {
+                let store_of = |c: char| if c == 'F' { &st } else { &stg };
+                let mut out: Vec<String> = vec![];
+                match shape {
+                    Shape::Seq => {
+                        for (i, p) in parts.iter().enumerate() {
+                            for (k, v) in matches(&schema, store_of(p.fact), &p.keys, &p.pat) {
+                                out.push(format!("{i}:{}", show_fact(&schema, k, v)));
+                            }
+                        }
+                    }
+                    _ => {
+                        let outer = matches(&schema, store_of(parts[0].fact), &parts[0].keys, &parts[0].pat);
+                        rec.count(&format!("nested-outer-matches:{}", outer.len().min(3)));
+                        for (k, v) in outer {
+                            out.push(format!("0:{}", show_fact(&schema, k, v)));
+                            let mut ik: Vec<Pos> = vec![];
+                            if parts[1].at {
+                                ik.push(Pos::Param(k[0].clone()));
+                            }
+                            ik.extend(parts[1].keys.iter().cloned());
+                            for (k2, v2) in matches(&schema, store_of(parts[1].fact), &ik, &parts[1].pat) {
+                                out.push(format!("1:{}", show_fact(&schema, k2, v2)));
+                            }
+                        }
+                    }
+                }
+                Some(format!("[{}]", out.join(";")))
+            }
             Op::Create(k, v) => {
                 let key = all_vals(k);
                 let vals: Vec<(String, V)> = schema.vals.iter().map(|(n, _)| n.clone()).zip(all_vals(v)).collect();
@@ -890,7 +1098,45 @@ fn gen_case(rng: &mut Rng, thorough: bool) -> Vec<String> {
     };
     for i in 0..nops {
         let r = rng.below(100);
-        let op = if r < 35 || i < 3 {
+        let op = if i >= 3 && r >= 88 {
+            // several maps in one action: nested (directly / through a called action) or in sequence
+            let mut part = |rng: &mut Rng, inner: bool| -> Part {
+                let fact = if rng.chance(1, 2) { 'F' } else { 'G' };
+                let at = inner && !schema.keys.is_empty() && rng.chance(1, 2);
+                let hit = rng.chance(3, 4);
+                let full = key_of(rng, &seen, hit);
+                // mostly few bound keys, so that the outer map visits several facts
+                let maxb = schema.keys.len().saturating_sub(at as usize);
+                let b = if rng.chance(2, 3) { 0 } else { rng.below(maxb as u64 + 1) as usize };
+                let keys: Vec<Pos> = full.into_iter().skip(at as usize).take(b).map(|v| pos_of(rng, v, true)).collect();
+                let pat = if rng.chance(1, 2) || seen.is_empty() {
+                    None
+                } else {
+                    let cur = seen[rng.below(seen.len() as u64) as usize].1.clone();
+                    Some(
+                        schema
+                            .vals
+                            .iter()
+                            .enumerate()
+                            .map(|(i, _)| if rng.chance(1, 2) { Pos::Bind } else { pos_of(rng, cur[i].clone(), true) })
+                            .collect(),
+                    )
+                };
+                Part { fact, at, keys, pat }
+            };
+            match rng.below(5) {
+                0..=1 => Op::MapX(Shape::Nest, vec![part(rng, false), part(rng, true)]),
+                2..=3 => Op::MapX(Shape::NestCall, vec![part(rng, false), part(rng, true)]),
+                _ => Op::MapX(Shape::Seq, (0..rng.range(2, 3)).map(|_| part(rng, false)).collect()),
+            }
+        } else if i >= 2 && r >= 78 && r < 88 {
+            // the second fact `G` (same schema), mostly with keys that `F` also has
+            let hit = rng.chance(2, 3);
+            let k = key_of(rng, &seen, hit);
+            let v: Vec<V> = schema.vals.iter().map(|(_, t)| gen_val(rng, *t, narrow)).collect();
+            seen.push((k.clone(), v.clone()));
+            Op::CreateG(k.into_iter().map(|v| pos_of(rng, v, true)).collect(), v.into_iter().map(|v| pos_of(rng, v, true)).collect())
+        } else if r < 35 || i < 3 {
             let hit = rng.chance(1, 12);
             let k = key_of(rng, &seen, hit);
             let v: Vec<V> = schema.vals.iter().map(|(_, t)| gen_val(rng, *t, narrow)).collect();
@@ -978,6 +1224,13 @@ fn gen_case(rng: &mut Rng, thorough: bool) -> Vec<String> {
     }
     // final full listing
     lines.push(Op::Q(Kind::Map, vec![], None).line());
+    lines.push(
+        Op::MapX(
+            Shape::Nest,
+            vec![Part { fact: 'F', at: false, keys: vec![], pat: None }, Part { fact: 'G', at: !schema.keys.is_empty(), keys: vec![], pat: None }],
+        )
+        .line(),
+    );
     lines
 }
 
